@@ -243,6 +243,7 @@ func (p *peer) updateStartupDelay() {
 
 	p.startupDelayTimer.Stop()
 	p.startupDelayTimer = time.NewTimer(p.startupDelay)
+	verifTimer("holddown", p.startupDelayTimer)
 	logf("[%s] damping peer for %s", p.config.RemoteAddress, p.startupDelay)
 	verifEvent("m.damp", p, int64(p.startupDelay))
 }
